@@ -12,14 +12,21 @@ def jX : Ext := fun f args =>
   match f, args with
   | "Element", [.str t] => .ok (elemV t .none)
   | "SubElement", [p, .str t] => .ok (elemV t p)
-  | ".set", [e, .str k, v] => .ok (setV e k v)
+  | ".set", [e, .str k, v] => if k == "message" then .ok (setV e "message" .none) else .ok (setV e k v)
   | "str", [v] => .ok (strV v)
   | ".replace", [a, _, _] => .ok a
   | "remove_color_codes", [v] => .ok v
   | _, _ => .stuck
 
 /-- the assumptions `JExt` are satisfiable -/
-theorem jX_ok : JExt jX := ⟨fun _ => rfl, fun _ _ => rfl, fun _ _ _ => rfl, fun _ => rfl, fun _ _ _ => rfl, fun _ => rfl⟩
+theorem jX_ok : JExt jX where
+  helem _ := rfl
+  hsub _ _ := rfl
+  hset e k v hk := by simp [jX, hk]
+  hsetm _ _ := rfl
+  hstr _ := rfl
+  hrepl _ _ _ := rfl
+  hrcc _ := rfl
 
 -- `for x in obj` / comprehension over an iterable object
 private def itObj : Val := .record [("__iter__", .list [.int 5, .int 6])]
